@@ -394,6 +394,57 @@ def decl_translation_tie(rep):
     return cnir.enable(rep)
 
 
+# ---------------------------------------------------------------------------------------------- requests made before any is read
+
+def oracle_lazy_parses(c):
+    """`KdBufParser.parse` is lazy: a caller may hold several requests on ONE KdBufParser before reading any of them.  Read one
+    after the other (in any order), each request delivers what a FRESH parser delivers for its dump — the same events and log
+    records — and when a request has been read to its end the parser's metadata (header, trace codes, kernel extensions, dyld
+    modules, images, processes) and tables are those a fresh parser has after that dump: nothing of the dumps whose requests
+    were merely MADE earlier (oracle on the code alone)."""
+    from pykdebugparser.kd_buf_parser import KdBufParser
+
+    def digest(evs):
+        return [ct.show_ev(e) if not hasattr(e, 'composed_message') else 'L:%d:%s' % (e.thread_identifier, e.composed_message)
+                for e in evs]
+    datas = [bytes.fromhex(h) for h in c['hexes']]
+    fresh = []
+    for d in datas:
+        kp = KdBufParser({}, {})
+        try:
+            evs = digest(list(kp.parse(io.BytesIO(d))))
+        except Exception as e:      # noqa: BLE001
+            return None             # the generators only make well-formed dumps; not this oracle's business otherwise
+        fresh.append((evs, ct.show_meta(kp), ct.show_tables(kp.threads_pids, kp.pids_names)))
+    kp = KdBufParser({}, {})
+    gens = [kp.parse(io.BytesIO(d)) for d in datas]           # all requests made before any is read
+    for i in c['order']:
+        try:
+            evs = digest(list(gens[i]))
+        except Exception as e:      # noqa: BLE001
+            return ('v3:raises@lazy', 'request %d of %d (all made on ONE KdBufParser before any was read, order %s) raised %s; a '
+                    'fresh parser reads that dump' % (i + 1, len(gens), c['order'], core.err_name(e)), c)
+        if evs != fresh[i][0]:
+            return ('v3:events@lazy', 'request %d of %d (all made before any was read, order %s) does not deliver what a fresh '
+                    'parser delivers for its dump' % (i + 1, len(gens), c['order']), c)
+        have = (ct.show_meta(kp), ct.show_tables(kp.threads_pids, kp.pids_names))
+        if have != fresh[i][1:]:
+            k = 0 if have[0] != fresh[i][1] else 1
+            return ('v3:metadata@lazy', 'after request %d of %d was read to its end (all %d made on ONE KdBufParser before any was '
+                    'read, order %s) the parser shows %s, a fresh parser after that dump %s'
+                    % (i + 1, len(gens), len(gens), c['order'], have[k][:300], fresh[i][1 + k][:300]), c)
+    return None
+
+
+def lazy_parse_cases(rng, tier):
+    out = []
+    for _ in range(25 if tier == 'quick' else 500):
+        fs = [ct.gen_v3(rng, small=True) for _ in range(rng.randrange(2, 4))]
+        order = rng.choice([list(range(len(fs))), list(reversed(range(len(fs)))), rng.sample(range(len(fs)), len(fs))])
+        out.append({'hexes': [ct.v3_bytes(f).hex() for f in fs], 'order': order})
+    return out
+
+
 def correspondence(rep, rng, tier):
     from .. import rdir
     if decl_translation_tie(rep):
@@ -431,6 +482,12 @@ def correspondence(rep, rng, tier):
     from .. import readprobe
     sizes = readprobe.block_sizes(tier, version=3)
     rep.notes.append(readprobe.describe(tier))
+    core.run_code_section(rep, 'v3-lazy-parses', lazy_parse_cases(rng, tier), oracle_lazy_parses,
+                          kind_fn=lambda c: 'n=%d' % len(c['hexes']),
+                          rule='code-only section: 2-3 KdBufParser.parse() requests for well-formed v3 dumps made on ONE KdBufParser '
+                               'BEFORE any is read, then read one after the other in every order: each delivers the events and log '
+                               'records a fresh parser delivers, and after each the metadata and tables are those of a fresh parser '
+                               'after that dump')
     core.run_code_section(rep, 'v3-blocks', block_case_set(rng, tier, sizes), oracle_blocks,
                           kind_fn=lambda c: c['kind'] + ':' + c['origin'].split(':')[0],
                           rule='code-only section (inputs too long for a protocol line): for every block size B the scanner may '
@@ -486,6 +543,14 @@ def replay(path):
         res = _kdinit.replay(rp)
         if res:
             print('failing:', res)
+            print(f'VIOLATION property=C03 replay={path}')
+            return 1
+        print('no violation on this input')
+        return 0
+    if sec == 'v3-lazy-parses':
+        res = oracle_lazy_parses(case)
+        print('oracle:', res[:2] if res else None)
+        if res:
             print(f'VIOLATION property=C03 replay={path}')
             return 1
         print('no violation on this input')
